@@ -47,8 +47,11 @@ CS = {"K1": 512, "K1b": 512, "K2": 1024, "K3": 512, "K4": 4096, "K4b": 4096, "K5
 
 
 def via_entries(progs, rng, p=0.3):
-    """some handles come from DirEntry::to_file()/to_dir() of the listed entry instead of open_file()/open_dir() (same meaning)"""
+    """some handles come from DirEntry::to_file()/to_dir() of the listed entry instead of open_file()/open_dir() (same meaning);
+    one program in eight runs on a storage that transfers fewer bytes than asked (legal for Read/Write, invisible above the library)"""
     for pr in progs:
+        if rng.random() < 0.125 and "short" not in pr["cfg"]:
+            pr["cfg"] = dict(pr["cfg"], short=rng.randrange(1, 1 << 30))
         for o in pr["ops"]:
             if o.get("op") in ("open_file", "open_dir") and "/" not in o.get("path", "/") and rng.random() < p:
                 o["via"] = "entry"
@@ -484,6 +487,10 @@ def c12():
             # status byte found at mount: clean, dirty, io-error, reserved high bits
             st = [0, 0, 1, 2, 0xF0, 0xF1, 0x80, 3][i % 8]
             cfg = with_status(gen.K(kname), kname, st) if st else gen.K(kname)
+            if kname == "K5" and i % 5 == 4:
+                # (FAT32: table entry 1 carries another implementation's clean-shutdown / no-error bits, cleared by it)
+                cfg = json.loads(json.dumps(cfg))
+                cfg["vol"].setdefault("patch", []).append({"fat1_and": rng.choice([0xF7FFFFFF, 0xFBFFFFFF, 0xF3FFFFFF])})
             if i % 3 == 0:
                 p = gen.io_program(rng, "st-io-%s-%d" % (kname, i), cfg, CS[kname], 30, n_files=2)
             else:
